@@ -42,6 +42,7 @@ import (
 	"github.com/google/osv-scalibr/log"
 	"github.com/google/osv-scalibr/plugin"
 	"github.com/google/osv-scalibr/purl"
+	"github.com/package-url/packageurl-go"
 
 	"verif/harness/hx"
 )
@@ -111,10 +112,34 @@ func (p pk) purl() purl.PackageURL {
 	return u
 }
 
-// norm is the property's normalisation: FromString(u.String()); ok=false when the library cannot parse it back.
-func norm(u purl.PackageURL) (purl.PackageURL, bool) {
-	v, err := purl.FromString(u.String())
-	return v, err == nil
+// libPurl is the package's purl as a value of the THIRD-PARTY library's own type.
+func (p pk) libPurl() packageurl.PackageURL {
+	u := packageurl.PackageURL{Type: p.typ, Namespace: p.ns, Name: p.pname, Version: p.pversion, Subpath: p.subpath}
+	for _, q := range p.quals {
+		u.Qualifiers = append(u.Qualifiers, packageurl.Qualifier{Key: q.k, Value: q.v})
+	}
+	return u
+}
+
+var validTypes = func() map[string]bool {
+	m := map[string]bool{}
+	for _, t := range allTypes {
+		m[t] = true
+	}
+	return m
+}()
+
+// norm is the property's normalisation ("up to type normalisation"): print, then parse, with github.com/package-url/packageurl-go
+// ALONE — no function of /repo/purl takes part, so a defect in /repo's PackageURL.String / FromString wrappers (which both SBOM
+// importers and the exporters go through) cannot cancel out between the expected and the observed side. ok=false: the library
+// cannot parse its own print, or the type is not one /repo/purl accepts (allTypes = validType of purl.go).
+func norm(p pk) (packageurl.PackageURL, bool) {
+	lu := p.libPurl()
+	v, err := packageurl.FromString((&lu).String())
+	if err != nil || !validTypes[v.Type] {
+		return v, false
+	}
+	return v, true
 }
 
 // canonName mirrors Scalibr.Sbom.canonName (lean/Scalibr/Spec/Sbom.lean).
@@ -127,15 +152,58 @@ func canonName(s string) string {
 	}, s)
 }
 
-// normLawViolations counts purls on which the real library breaks `NormLaws` (idempotent, version untouched, name equal
-// up to canonName) — the constraint the C15 `_partial` theorems put on `norm`. Reported on stderr and as exit status 3.
+func cleanSegs(s string) string {
+	var out []string
+	for _, seg := range strings.Split(s, "/") {
+		if seg != "" && seg != "." && seg != ".." {
+			out = append(out, seg)
+		}
+	}
+	return strings.Join(out, "/")
+}
+
+// normLawViolations counts purls on which the third-party library breaks the laws the C15 theorems and the oracle rely on:
+// `NormLaws` (idempotent, version untouched, name equal up to canonName) and, component by component, NOTHING ELSE LOST:
+// every qualifier with a non-empty value comes back under its lower-cased key with the very same value and no other
+// qualifier appears, the sub-path is the same up to empty / "." / ".." segments, the namespace the same up to case and empty
+// segments. Reported on stderr and as exit status 3 (a finding about the trusted library, not about /repo).
 var normLawViolations int32
 
-func checkNormLaws(u, n purl.PackageURL) {
-	n2, ok := norm(n)
-	if !ok || n2.String() != n.String() || n.Version != u.Version || canonName(n.Name) != canonName(u.Name) {
+func checkNormLaws(p pk, n packageurl.PackageURL) {
+	bad := ""
+	n2, err := packageurl.FromString((&n).String())
+	switch {
+	case err != nil || (&n2).String() != (&n).String():
+		bad = "not idempotent"
+	case n.Version != p.pversion:
+		bad = "version changed"
+	case canonName(n.Name) != canonName(p.pname):
+		bad = "name changed beyond case and _ . - folding"
+	case strings.ToLower(cleanSegs(n.Namespace)) != strings.ToLower(cleanSegs(p.ns)):
+		bad = "namespace changed beyond case and empty segments"
+	case cleanSegs(n.Subpath) != cleanSegs(p.subpath):
+		bad = "subpath changed beyond empty/./.. segments"
+	default:
+		want := map[string]string{}
+		for _, q := range p.quals {
+			if q.v != "" {
+				want[strings.ToLower(q.k)] = q.v
+			}
+		}
+		got := n.Qualifiers.Map()
+		if len(got) != len(want) {
+			bad = "qualifier set changed"
+		}
+		for k, v := range want {
+			if g, ok := got[k]; !ok || g != v {
+				bad = fmt.Sprintf("qualifier %q: value %q came back as %q", k, v, g)
+			}
+		}
+	}
+	if bad != "" {
 		if atomic.AddInt32(&normLawViolations, 1) <= 5 {
-			fmt.Fprintf(os.Stderr, "c15gen: NormLaws violated by the purl library: %q -> %q (again: %q, ok=%v)\n", u.String(), n.String(), n2.String(), ok)
+			lu := p.libPurl()
+			fmt.Fprintf(os.Stderr, "c15gen: packageurl-go breaks the normalisation laws (%s): %q -> %q\n", bad, (&lu).String(), (&n).String())
 		}
 	}
 }
@@ -207,9 +275,9 @@ func (c tcase) line() string {
 		}
 		u := p.purl()
 		fmt.Fprintf(&sb, " 1 %s %s %s %s %s %s %s", hs(p.typ), hs(p.ns), hs(p.pname), hs(p.pversion), qs, hs(p.subpath), hs(u.String()))
-		if n, ok := norm(u); ok {
-			checkNormLaws(u, n)
-			fmt.Fprintf(&sb, " %s %s %s", hs(n.String()), hs(n.Name), hs(n.Version))
+		if n, ok := norm(p); ok {
+			checkNormLaws(p, n)
+			fmt.Fprintf(&sb, " %s %s %s", hs((&n).String()), hs(n.Name), hs(n.Version))
 		} else {
 			sb.WriteString(" ! - -")
 		}
